@@ -104,6 +104,65 @@ def extract(repo='/repo', config='default', crates='ggrs', all_crates=False, tar
     return paths, {'cached': False, 'key': key, 'wall_s': round(time.time() - t0, 2)}
 
 
+DEP_CRATES = ('bitfield_rle', 'varinteger')
+
+
+def deps_hash(repo):
+    h = hashlib.sha256()
+    for f in ('Cargo.toml', 'Cargo.lock'):
+        try:
+            with open(os.path.join(repo, f), 'rb') as fh:
+                h.update(fh.read())
+        except OSError:
+            h.update(b'<missing>')
+        h.update(b'\0')
+    with open(DRIVER, 'rb') as fh:
+        h.update(hashlib.sha256(fh.read()).digest())
+    return h.hexdigest()[:20]
+
+
+def extract_deps(repo='/repo'):
+    """facts of the two codec dependencies (bitfield_rle, varinteger).  Their source is pinned by Cargo.lock (registry checksum), so the
+    cache key is the manifest + lock file + driver, not the ggrs sources; written atomically (parallel scratch copies share it)."""
+    ensure_driver()
+    t0 = time.time()
+    key = deps_hash(repo)
+    outdir = os.path.join(CACHE, 'facts', 'deps-' + key)
+    paths = {c: os.path.join(outdir, c + '.json') for c in DEP_CRATES}
+    if all(os.path.exists(p) for p in paths.values()):
+        return paths, {'cached': True, 'key': key, 'wall_s': 0.0}
+    import tempfile
+    os.makedirs(os.path.join(CACHE, 'facts'), exist_ok=True)
+    tmp_out = tempfile.mkdtemp(prefix='deps-tmp-', dir=os.path.join(CACHE, 'facts'))
+    tmp_target = tempfile.mkdtemp(prefix='target-deps-', dir=CACHE)
+    try:
+        env = dict(os.environ)
+        env['LD_LIBRARY_PATH'] = os.path.join(sysroot(), 'lib') + ':' + env.get('LD_LIBRARY_PATH', '')
+        env['RUSTFLAGS'] = '-Zmir-opt-level=0 -Awarnings'
+        env['CARGO_NET_OFFLINE'] = 'true'
+        env['GGRS_FACTS_OUT'] = tmp_out
+        env['GGRS_FACTS_CRATES'] = ','.join(DEP_CRATES)
+        env['CARGO_TARGET_DIR'] = tmp_target
+        env.pop('RUSTC_WORKSPACE_WRAPPER', None)
+        env['RUSTC_WRAPPER'] = DRIVER
+        p = subprocess.run(['cargo', '+nightly', 'check', '--offline', '--lib'], cwd=repo, env=env, stdout=subprocess.PIPE,
+                           stderr=subprocess.STDOUT, text=True)
+        if p.returncode != 0:
+            sys.stderr.write(p.stdout[-4000:])
+            raise RuntimeError('dependency fact extraction failed')
+        for c in DEP_CRATES:
+            if not os.path.exists(os.path.join(tmp_out, c + '.json')):
+                raise RuntimeError('dependency fact extraction produced no fact file for crate %s' % c)
+        try:
+            os.rename(tmp_out, outdir)
+        except OSError:
+            pass  # another process won the race; its result is equivalent
+    finally:
+        shutil.rmtree(tmp_target, ignore_errors=True)
+        shutil.rmtree(tmp_out, ignore_errors=True)
+    return paths, {'cached': False, 'key': key, 'wall_s': round(time.time() - t0, 2)}
+
+
 if __name__ == '__main__':
     import argparse
     ap = argparse.ArgumentParser()
@@ -113,3 +172,5 @@ if __name__ == '__main__':
     ap.add_argument('--all-crates', action='store_true')
     a = ap.parse_args()
     print(extract(a.repo, a.config, a.crates, a.all_crates))
+    if a.crates == 'ggrs':
+        print(extract_deps(a.repo))
